@@ -21,10 +21,12 @@ pub fn naive_memchr(needle: u8, haystack: &[u8]) -> Option<usize> {
     None
 }
 
-#[cfg(not(feature = "cap2"))]
+#[cfg(not(any(feature = "cap2", feature = "cap1")))]
 pub const CAP: usize = 4;
-#[cfg(feature = "cap2")]
+#[cfg(all(feature = "cap2", not(feature = "cap1")))]
 pub const CAP: usize = 2;
+#[cfg(feature = "cap1")]
+pub const CAP: usize = 1;
 /// Fixed inline slots (no realloc, no memmove: keeps CBMC's constant propagation alive) + overflow Vec for the few large maps.
 pub struct HashMap<K, V, S = ()> { slots: [Option<(K, V)>; CAP], extra: Vec<(K, V)>, n: usize, _s: PhantomData<S> }
 impl<K: Clone, V: Clone, S> Clone for HashMap<K, V, S> { fn clone(&self) -> Self { HashMap { slots: std::array::from_fn(|i| self.slots[i].clone()), extra: self.extra.clone(), n: self.n, _s: PhantomData } } }
@@ -165,9 +167,25 @@ impl<T: Eq, S> HashSet<T, S> {
     fn pos<Q: ?Sized + Eq>(&self, k: &Q) -> Option<usize> where T: Borrow<Q> { let mut i = 0; while i < CAP { if let Some(t) = &self.slots[i] { if t.borrow() == k { return Some(i); } } i += 1; } None }
     pub fn contains<Q: ?Sized + Eq>(&self, k: &Q) -> bool where T: Borrow<Q> { self.pos(k).is_some() }
     pub fn get<Q: ?Sized + Eq>(&self, k: &Q) -> Option<&T> where T: Borrow<Q> { match self.pos(k) { Some(i) => self.slots[i].as_ref(), None => None } }
-    pub fn insert(&mut self, t: T) -> bool { if self.pos(&t).is_some() { false } else { let j = self.free_slot(); self.slots[j] = Some(t); self.n += 1; true } }
+    pub fn insert(&mut self, t: T) -> bool {
+        if self.pos(&t).is_some() { return false; }
+        // constant slot indices only (loop variable): a slot index computed by free_slot() is a symbolic value once an
+        // earlier insert was conditional, and `slots[symbolic] = ..` on an array of structs is what made CBMC's array
+        // post-processing run out of memory in the ring harnesses
+        let mut v = Some(t);
+        let mut i = 0;
+        while i < CAP { if v.is_some() && self.slots[i].is_none() { self.slots[i] = v.take(); } i += 1; }
+        if v.is_some() { panic!("verif_collections: model capacity exceeded"); }
+        self.n += 1;
+        true
+    }
     pub fn remove<Q: ?Sized + Eq>(&mut self, k: &Q) -> bool where T: Borrow<Q> { self.take(k).is_some() }
-    pub fn take<Q: ?Sized + Eq>(&mut self, k: &Q) -> Option<T> where T: Borrow<Q> { match self.pos(k) { Some(i) => { self.n -= 1; self.slots[i].take() } None => None } }
+    pub fn take<Q: ?Sized + Eq>(&mut self, k: &Q) -> Option<T> where T: Borrow<Q> {
+        let mut out = None;
+        let mut i = 0;
+        while i < CAP { if out.is_none() { let hit = match &self.slots[i] { Some(t) => t.borrow() == k, None => false }; if hit { out = self.slots[i].take(); self.n -= 1; } } i += 1; }
+        out
+    }
     pub fn union<'a>(&'a self, o: &'a Self) -> impl Iterator<Item = &'a T> + 'a { self.iter().chain(o.iter().filter(move |t| !self.contains(*t))) }
     pub fn intersection<'a>(&'a self, o: &'a Self) -> impl Iterator<Item = &'a T> + 'a { self.iter().filter(move |t| o.contains(*t)) }
     pub fn difference<'a>(&'a self, o: &'a Self) -> impl Iterator<Item = &'a T> + 'a { self.iter().filter(move |t| !o.contains(*t)) }
